@@ -332,7 +332,7 @@ def phase_mc(tier):
 def package_mc(tier):
     """exhaustive TLC runs of the Package controller's unpack / deploy / record cycle (spec/PKOPackage.tla, one action per API call)"""
     q = tier == 'quick'
-    c = dict(Specs='MCSpecs', Class='MCClass', Atomic='FALSE', CopyEnv='TRUE', MaxEdit=3 if q else 4, MaxFault=2 if q else 3, MaxTouch=1)
+    c = dict(Specs='MCSpecs', Class='MCClass', Atomic='FALSE', CopyEnv='TRUE', RecordOnFailedPull='FALSE', MaxEdit=3 if q else 4, MaxFault=2 if q else 3, MaxTouch=1)
     safety = ['TypeOK', 'Inv_C16_NoDeployUnlessAdmissible', 'Inv_C09_PackagePaused', 'Inv_C16_NoRepull', 'Inv_C16_RecordJustified']
     return [dict(name='package-asfound', kind='gen', module='MC_PKOPackage', constants=c, invariants=safety, timeout=3000),
             # deploy + record as one step: everything holds, incl. TemplateIsRender and convergence under fairness
@@ -340,13 +340,16 @@ def package_mc(tier):
                  invariants=safety + ['Inv_C16_TemplateIsRender'], props=['Live_C16_Converges'], timeout=3000),
             # negative control: the known finding C16 (template deployed, record fails, spec reverted) at the design level
             dict(name='package-asfound-negctl', kind='gen', module='MC_PKOPackage', constants=c, invariants=['Inv_C16_TemplateIsRender'],
-                 expect_violation='Inv_C16_TemplateIsRender')]
+                 expect_violation='Inv_C16_TemplateIsRender'),
+            # negative control: the unpacked-hash recorded after a failed pull (seeded change, round 5)
+            dict(name='package-negctl-recordfail', kind='gen', module='MC_PKOPackage', constants=dict(c, RecordOnFailedPull='TRUE'),
+                 invariants=['Inv_C16_RecordJustified'], expect_violation='Inv_C16_RecordJustified')]
 
 
 def package_env_mc(tier):
     """C13 at the design level: the environment as render input of the Package controller (shared sink, spec/PKOPackage.tla)"""
     q = tier == 'quick'
-    c = dict(Specs='MCSpecs', Class='MCClass', Atomic='TRUE', CopyEnv='TRUE', MaxEdit=2 if q else 3, MaxFault=1 if q else 2, MaxTouch=2)
+    c = dict(Specs='MCSpecs', Class='MCClass', Atomic='TRUE', CopyEnv='TRUE', RecordOnFailedPull='FALSE', MaxEdit=2 if q else 3, MaxFault=1 if q else 2, MaxTouch=2)
     return [dict(name='package-env-intended', kind='gen', module='MC_PKOPackage', constants=c, invariants=['TypeOK', 'Inv_C13_EnvIsOwn'],
                  props=['Act_C13_UnchangedKeepsTemplate'], timeout=3000),
             # negative control: the sink hands out a shallow copy (seeded change C13 / C18 round 4)
